@@ -52,6 +52,25 @@ type DevStats struct {
 	Capped       bool
 }
 
+// ReplayChoices returns the recorded choice sequence if this run replays a case of the named search.
+func (r *Run) ReplayChoices(search string) ([]int, bool) {
+	if r.ReplayPath == "" {
+		return nil, false
+	}
+	var rep struct {
+		Search  string `json:"search"`
+		Choices []int  `json:"choices"`
+	}
+	r.LoadReplay(&rep)
+	if rep.Search != search {
+		return nil, false
+	}
+	return rep.Choices, true
+}
+
+// RunChoices executes run once under the given choice sequence.
+func RunChoices(choices []int, run func(c *Chooser)) { run(&Chooser{prefix: choices}) }
+
 // ExploreDeviations runs run(c) for every choice sequence with total cost <= bound. run must be
 // deterministic given the choices. It is called concurrently from several goroutines.
 func (r *Run) ExploreDeviations(bound int, run func(c *Chooser)) DevStats {
